@@ -206,6 +206,42 @@ pub fn matrices(rec: &mut Recorder, rng: &mut Rng, thorough: bool) {
         rec.put(&format!("mat dense {h} {w} {opstr}"), &show(&rd));
         rec.put(&format!("mat spec {h} {w} {opstr}"), &show(&rs));
         rec.put(&format!("mat sparse{hint} {h} {w} {opstr}"), &show(&rs));
+        // dense-only continuation: the trait puts no precondition on these for the bit-packed matrix (the sparse
+        // one asserts start_col == first dense column and refuses most narrowings): any narrowing resize - also to a
+        // width that is not a multiple of 64, which leaves stale bits in the last word - and row queries from any column
+        {
+            let mut dops = ops.clone();
+            if sh.w >= 2 && rng.chance(3, 4) {
+                let nh = rng.range(1.max(sh.h as u64 / 2), sh.h as u64) as usize;
+                let nw = if rng.chance(1, 2) && sh.w > 66 { (sh.w - 1) / 64 * 64 + 1 + rng.below(((sh.w - 1) % 64).max(1) as u64) as usize } else { rng.range(1, sh.w as u64) as usize }.min(sh.w);
+                for r in 0..sh.h { sh.bits[r].truncate(nw); }
+                sh.bits.truncate(nh); sh.tainted.truncate(nh);
+                for t in sh.tainted.iter_mut() { if let Some(b) = t { *b = (*b).min(nw); } }
+                if nw < sh.w { sh.dense = 0; }
+                sh.h = nh; sh.w = nw;
+                dops.push(format!("rs:{nh}:{nw}"));
+                rec.count("dense_only_narrowing");
+            }
+            for _ in 0..12 {
+                let r = rng.below(sh.h as u64) as usize;
+                let c = rng.below(sh.w as u64 + 1) as usize;
+                if c < sh.w && !sh.defined(r, c) { continue; }
+                if c == sh.w && !sh.row_clean(r) { continue; }
+                match rng.below(4) {
+                    0 => dops.push(format!("nz:{r}:{c}")),
+                    1 => if c < sh.w { dops.push(format!("sro:{r}:{c}")) },
+                    2 => { let b = rng.range(c as u64, sh.w as u64) as usize; dops.push(format!("co:{r}:{c}:{b}")); }
+                    _ => { let b = rng.range(c as u64, sh.w as u64) as usize; dops.push(format!("it:{r}:{c}:{b}")); }
+                }
+            }
+            let dopstr = dops.join(";");
+            let o3 = dops.clone();
+            let rdd = guarded(move || { let mut m = DenseBinaryMatrix::new(h, w, hint); run_ops(&mut m, &o3) });
+            if rdd.is_err() { rec.impl_violation(format!("DenseBinaryMatrix panics on an admissible sequence: h={h} w={w} ops: {}", &dopstr[..dopstr.len().min(600)])); }
+            rec.put(&format!("mat spec {h} {w} {dopstr}"), &show(&rdd));
+            rec.put(&format!("mat dense {h} {w} {dopstr}"), &show(&rdd));
+            rec.count("dense_only_sequences");
+        }
         rec.count("sequences");
         rec.add("ops", ops.len() as u64);
         if hint == 0 && opstr.contains(";fr:") { rec.count("freeze_from_zero_dense_columns"); }
